@@ -136,7 +136,7 @@ def run_transit(hints, sender=True, good_first=False):
     t.set_transit_key(b"k" * 32)
     res = []
     problems = []
-    full = ([GOOD] + hints) if good_first else (hints + [GOOD])
+    full = hints if good_first == "alone" else (([GOOD] + hints) if good_first else (hints + [GOOD]))
     try:
         t.add_connection_hints(full)
     except Exception as e:
@@ -187,7 +187,7 @@ def run_dilation(hints, good_first=False):
     before = len(patches._logged)
     m, s = make_manager(r)
     problems = []
-    full = ([GOOD] + hints) if good_first else (hints + [GOOD])
+    full = hints if good_first == "alone" else (([GOOD] + hints) if good_first else (hints + [GOOD]))
     msg = json.dumps({"type": "connection-hints", "hints": full}).encode()
     try:
         m.received_dilation_message(msg)
@@ -207,9 +207,11 @@ def judge(kind, hints, consumer, problems, dialled):
     out = []
     case = dict(kind=kind, hints=hints, consumer=consumer)
     for (what, sig, msg) in problems:
+        if what == "aborted" and consumer.endswith("/alone"):
+            continue   # no other path exists in this configuration: connect() ends when its only attempts have failed, whatever the reason
         out.append(dict(oracle="hint-%s" % what, sig="%s:%s" % (consumer.split("/")[0], sig),
                         msg="%s handling %s: %s" % (consumer, json.dumps(hints)[:200], msg), case=case))
-    if problems:
+    if out:
         return out
     ok = valid_targets(hints) | {("10.9.9.9", 9)}
     extra = dialled - ok
@@ -217,7 +219,7 @@ def judge(kind, hints, consumer, problems, dialled):
         out.append(dict(oracle="dialled-invalid", sig=consumer.split("/")[0],
                         msg="%s dialled %r which no valid hint names (hints %s)" % (consumer, sorted(extra), json.dumps(hints)[:200]),
                         case=case))
-    if ("10.9.9.9", 9) not in dialled:
+    if ("10.9.9.9", 9) not in dialled and not consumer.endswith("/alone"):
         out.append(dict(oracle="good-hint-lost", sig=consumer.split("/")[0],
                         msg="%s: the valid hint next to %s was not dialled" % (consumer, json.dumps(hints)[:200]), case=case))
     return out
@@ -229,7 +231,9 @@ def _work(chunk):
         for consumer, fn in (("transit-sender/last", lambda h: run_transit(h, True, False)),
                              ("transit-receiver/first", lambda h: run_transit(h, False, True)),
                              ("dilation/last", lambda h: run_dilation(h, False)),
-                             ("dilation/first", lambda h: run_dilation(h, True))):
+                             ("dilation/first", lambda h: run_dilation(h, True)),
+                             ("transit-sender/alone", lambda h: run_transit(h, True, "alone")),
+                             ("dilation/alone", lambda h: run_dilation(h, "alone"))):
             problems, dialled = fn(json.loads(json.dumps(hints)))
             vs = judge(kind, hints, consumer, problems, dialled)
             res.append((kind, consumer, len(dialled), vs))
@@ -253,7 +257,7 @@ def enumerate_hints(chk):
     chk.add_enum("hint-lists", n, nontriv,
                  "every hint list from the grammar (valid direct/tor/relay hints; every single-field and pairwise mutation over %d "
                  "values incl. wrong types, missing fields, nested hints; relay sub-hint mutations and non-object sub-hints; all "
-                 "priority type pairs on equal/different targets; odd hostnames) fed, next to one valid hint, to "
+                 "priority type pairs on equal/different targets; odd hostnames) fed, before / after one valid hint and on its own, to "
                  "TransitSender/TransitReceiver.add_connection_hints+connect() and to a CONNECTING dilation Manager via "
                  "received_dilation_message; distinct_nontrivial = distinct non-empty hint lists" % len(VALS),
                  [l for k, l in lists[5:400:97]], viol, extra=dict(hint_lists=len(lists), kinds=len(kinds)))
@@ -367,7 +371,9 @@ def replay(body):
         fn = {"transit-sender/last": lambda h: run_transit(h, True, False),
               "transit-receiver/first": lambda h: run_transit(h, False, True),
               "dilation/last": lambda h: run_dilation(h, False),
-              "dilation/first": lambda h: run_dilation(h, True)}[c["consumer"]]
+              "dilation/first": lambda h: run_dilation(h, True),
+              "transit-sender/alone": lambda h: run_transit(h, True, "alone"),
+              "dilation/alone": lambda h: run_dilation(h, "alone")}[c["consumer"]]
         problems, dialled = fn(c["hints"])
         vs = judge(c["kind"], c["hints"], c["consumer"], problems, dialled)
         print("dialled:", sorted(dialled))
